@@ -82,8 +82,8 @@ def rule_grammar_agrees(ctx: Ctx, rid="C06.GRAMMAR-AGREES", maxlen=None, directi
     g, T = ctx.grammar, ctx.table
     ref = reference_cfg()
     ext = CFG.from_grammar(g)
-    N = maxlen or (13 if ctx.rep.tier == "quick" else 16)
-    limit = 4000 if ctx.rep.tier == "quick" else 60000
+    N = maxlen or (13 if ctx.rep.tier == "quick" else 18)
+    limit = 4000 if ctx.rep.tier == "quick" else 400000
     n1 = n2 = 0
     miss = None
     for s in (ref.sentences(N, limit) if "ref<=ext" in directions else ()):
@@ -100,11 +100,11 @@ def rule_grammar_agrees(ctx: Ctx, rid="C06.GRAMMAR-AGREES", maxlen=None, directi
     else:
         ctx.rep.ok(rid, con + "[reference <= extracted]", f"all {n1} reference sentences of <= {N} tokens are accepted")
     extra = None
-    for s in (ext.sentences(N, limit) if "ext<=ref" in directions else ()):
-        n2 += 1
-        if not earley_recognise(ref, s):
-            extra = s
-            break
+    if "ext<=ref" in directions:
+        from pyab_static.lr import first_non_member
+        sents = list(ext.sentences(N, limit))
+        n2 = len(sents)
+        extra = first_non_member((VERIF / "reference" / "grammar.bnf").read_text(), sents)
     if "ext<=ref" not in directions:
         pass
     elif extra:
